@@ -512,6 +512,13 @@ func (h *harness) judgeTimeouts(step int, what string) error {
 	}
 	return h.judge(step, what, ndn.InterestResultTimeout, nil, alw, func(e *exInt, c call) error {
 		h.stats.toRes++
+		h.cls["resolved-by-timeout"] = true
+		for _, o := range h.ints {
+			if o.id > e.id && o.name == e.name && o.at.After(e.at) {
+				h.cnt["re-expressed-same-name-before-the-older-one-timed-out"]++
+				break
+			}
+		}
 		if c.at.Before(e.at.Add(e.life)) || now.Before(e.at.Add(e.life)) {
 			return fmt.Errorf("timed out %v after being expressed, before its lifetime %v", c.at.Sub(e.at), e.life)
 		}
@@ -703,6 +710,7 @@ func (h *harness) step(step int, op Op, nInt *int) error {
 		clk.settle()
 		return h.judge(step, fmt.Sprintf("Nack %s", op.N), ndn.InterestResultNack, req, alw, func(e *exInt, c call) error {
 			h.stats.nackRes++
+			h.cls["resolved-by-nack"] = true
 			if c.reason != reason {
 				return fmt.Errorf("callback got Nack reason %d, the Nack fed has %d", c.reason, reason)
 			}
@@ -862,6 +870,9 @@ func genCase(t *rapid.T) Case {
 	var now int64
 	var exps []gExp
 	var names []string // names touched so far
+	var attached []string // prefixes with a handler (approximately: the generator does not model refusals)
+	type gInc struct{ at, life int64 }
+	var incs []gInc
 	nInt := 0
 	nops := rapid.IntRange(1, 40).Draw(t, "nops")
 	randName := func(label string, minDepth int) string {
@@ -928,19 +939,52 @@ func genCase(t *rapid.T) Case {
 			}
 			now += op.D
 		case "att":
-			op = Op{K: "att", N: related("att", 0), M: rapid.SampledFrom([]int{0, 0, 1, 1, 2}).Draw(t, "mode")}
+			op = Op{K: "att", N: related("att", 0), M: rapid.SampledFrom([]int{0, 0, 1, 1, 1, 2}).Draw(t, "mode")}
+			if len(attached) > 0 && rapid.IntRange(0, 9).Draw(t, "attnest") < 6 {
+				// nest: parent or child of a prefix that already has a handler
+				base := comps(rapid.SampledFrom(attached).Draw(t, "attbase"))
+				if len(base) > 0 && rapid.Bool().Draw(t, "attup") {
+					op.N = join(base[:len(base)-1])
+				} else if len(base) < 4 {
+					op.N = join(append(append([]string{}, base...), rapid.SampledFrom(alphabet).Draw(t, "attc")))
+				}
+			}
+			attached = append(attached, op.N)
 		case "det":
 			op = Op{K: "det", N: related("det", 0)}
+			if len(attached) > 0 && rapid.IntRange(0, 9).Draw(t, "detatt") < 7 {
+				k := rapid.IntRange(0, len(attached)-1).Draw(t, "detidx")
+				op.N = attached[k]
+				attached = append(append([]string{}, attached[:k]...), attached[k+1:]...)
+			}
 		case "int":
 			op = Op{K: "int", N: related("int", 1), L: rapid.SampledFrom(lifetimes).Draw(t, "ilife"),
 				P: rapid.Bool().Draw(t, "icbp"), Lp: rapid.Bool().Draw(t, "ilp")}
+			if len(attached) > 0 && rapid.IntRange(0, 9).Draw(t, "intatt") < 7 {
+				// below (0..2 components) a prefix that has a handler
+				base := append([]string{}, comps(rapid.SampledFrom(attached).Draw(t, "intbase"))...)
+				for k := rapid.IntRange(0, 2).Draw(t, "intext"); k > 0 || len(base) == 0; k-- {
+					base = append(base, rapid.SampledFrom(alphabet).Draw(t, "intc"))
+				}
+				op.N = join(base)
+			}
+			incs = append(incs, gInc{now, int64(life(op.L) / time.Microsecond)})
 			nInt++
 		case "rep":
 			if nInt == 0 {
 				op = Op{K: "adv", D: 1000}
 				now += op.D
 			} else {
-				op = Op{K: "rep", I: rapid.IntRange(0, nInt-1).Draw(t, "repidx")}
+				k := rapid.IntRange(0, nInt-1).Draw(t, "repidx")
+				if rapid.Bool().Draw(t, "reparound") {
+					// first move the clock to around that Interest's deadline
+					delta := rapid.SampledFrom([]int64{-1000, -1, 0, 1, 1000}).Draw(t, "repdelta")
+					if d := incs[k].at + incs[k].life + delta - now; d > 0 {
+						c.Ops = append(c.Ops, Op{K: "adv", D: d})
+						now += d
+					}
+				}
+				op = Op{K: "rep", I: k}
 			}
 		}
 		if op.N != "" {
@@ -966,7 +1010,12 @@ func TestC20EngineRegress(t *testing.T) { evid.Regress(t, "C20", "TestC20Engine"
 
 func TestC20EngineBubble(t *testing.T) {
 	rec := evid.New("C20", "TestC20EngineBubble", ruleC20+" [real timer, virtual time in a testing/synctest bubble]")
-	evid.Check(t, rec, genCase, execBubble(t))
+	// same generator, another part of the random stream than TestC20Engine gets from the same seed
+	gen := func(rt *rapid.T) Case {
+		_ = rapid.Uint64().Draw(rt, "salt")
+		return genCase(rt)
+	}
+	evid.Check(t, rec, gen, execBubble(t))
 }
 
 func TestC20EngineBubbleReplay(t *testing.T) {
